@@ -82,8 +82,12 @@ class C04(Prop):
             k += 1
         if R.chance(40):
             conns.append(gen.gen_udp_noise(R.fork("udp"), k, used, v6=R.chance(30)))
-        return {"prop": "C04", "conns": conns, "tap": gen.gen_tap(R.fork("tap")), "policy": policy,
+        spec = {"prop": "C04", "conns": conns, "tap": gen.gen_tap(R.fork("tap")), "policy": policy,
                 "keychan": {"mode": "file", "perm_seed": R.bits(30)}}
+        if R.chance(30):
+            from .base import random_cli
+            spec["cli"] = random_cli(R.fork("cli"), [c for c in conns if c["proto"] in ("tls", "quic")], allow=("m", "a", "p"))
+        return spec
 
     def quic_available(self):
         import os
